@@ -165,6 +165,8 @@ pub fn run_fault_case(c: &FaultCase) -> Result<FaultInfo, String> {
         for f in c.faults.iter().filter(|f| f.at as usize == i) {
             let probe = ALLOC_PROBE.get().copied();
             let before = probe.map(|p| p()).unwrap_or(0);
+            // bytes allocated by the bridge call that saw the input / by the twin given the value it denotes
+            let (mut bridge_used, mut twin_used): (Option<u64>, Option<u64>) = (None, None);
             let others = open.values().filter(|o| o.kind != NOTE).count();
             let is_mutated_valid = !matches!(f.mutation, Mutation::Random(_) | Mutation::Intact);
             match &f.target {
@@ -178,6 +180,7 @@ pub fn run_fault_case(c: &FaultCase) -> Result<FaultInfo, String> {
                     let bytes = mutate(valid, &f.mutation);
                     info.offered += 1;
                     let r = vkit::panics::catch(|| a.send_bytes(&bytes)).map_err(|p| format!("[panic] process_event panicked on {} bytes {:?}: {p}", bytes.len(), &bytes[..bytes.len().min(40)]))??;
+                    bridge_used = probe.map(|p| p() - before);
                     match r {
                         None => {
                             info.rejected += 1;
@@ -188,7 +191,9 @@ pub fn run_fault_case(c: &FaultCase) -> Result<FaultInfo, String> {
                         Some(oa) => {
                             info.accepted += 1;
                             let Some(e) = decode_event(c.json, &bytes) else { return Err(format!("the bridge accepted {} bytes as an event which do not decode as one", bytes.len())) };
+                            let t0 = probe.map(|p| p()).unwrap_or(0);
                             let ot = t.send(for_twin(e, uni_a.id, uni_t.id))?;
+                            twin_used = probe.map(|p| p() - t0);
                             same("after an accepted mutated event", &oa, &ot)?;
                             for op in oa.effects {
                                 open.insert(op.path.clone(), op);
@@ -207,6 +212,7 @@ pub fn run_fault_case(c: &FaultCase) -> Result<FaultInfo, String> {
                     let bytes = mutate(encode_out(c.json, &Out::new(nonce)), &f.mutation);
                     info.offered += 1;
                     let r = vkit::panics::catch(|| a.respond_bytes(&path, &bytes, one_shot)).map_err(|p| format!("[panic] handle_response panicked on {} bytes {:?}: {p}", bytes.len(), &bytes[..bytes.len().min(40)]))??;
+                    bridge_used = probe.map(|p| p() - before);
                     match r {
                         None => {
                             info.rejected += 1;
@@ -225,7 +231,9 @@ pub fn run_fault_case(c: &FaultCase) -> Result<FaultInfo, String> {
                         Some(oa) => {
                             info.accepted += 1;
                             let Some(out) = decode_out(c.json, &bytes) else { return Err(format!("the bridge accepted {} bytes as a response which do not decode as one", bytes.len())) };
+                            let t0 = probe.map(|p| p()).unwrap_or(0);
                             let ot = t.resolve(&path, out, one_shot)?;
+                            twin_used = probe.map(|p| p() - t0);
                             same("after an accepted mutated response", &oa, &ot)?;
                             if one_shot {
                                 open.remove(&path);
@@ -237,11 +245,13 @@ pub fn run_fault_case(c: &FaultCase) -> Result<FaultInfo, String> {
                     }
                 }
             }
-            if let Some(p) = probe {
-                let used = p() - before;
+            if let Some(used) = bridge_used {
                 info.max_alloc = info.max_alloc.max(used);
-                if used > 16 * 1024 * 1024 + 64 * 600 {
-                    return Err(format!("[allocation] handling a malformed input of <= 600 bytes allocated {used} bytes"));
+                // a rejected input does no work; an accepted one does the work of the value it denotes
+                // (what the twin does with that value), serialized once more
+                let bound = 16 * 1024 * 1024 + 64 * 600 + 16 * twin_used.unwrap_or(0);
+                if used > bound {
+                    return Err(format!("[allocation] the bridge allocated {used} bytes while handling a malformed input of <= 600 bytes (the typed twin, given the value the input denotes, allocated {:?})", twin_used));
                 }
             }
             if is_mutated_valid {
